@@ -52,13 +52,13 @@ Proof. exact mode_roundtrip_example. Qed.
 
 (* ------------------------------------------------------------------ (2) the tree *)
 (* Every finite tree t -- directories (empty or not) with children in any number, files of any content
-   (zero-length included), relative links -- with
+   (zero-length included), relative links whose text may coincide with anything -- with
      wf_tree: permission bits in 0..0o7777, children of a directory sorted by name (the canonical listing of a
               directory; it implies distinct names), names without '/', not '', '.', '..', link texts in
               normal form that stay, lexically, inside the tree;
-     ctx_ok:  dereference off; the directory that is the current directory is the root exactly when the path is
-              '.' and no arcname is given (else no directory of the tree is the current directory); the first
-              component of the names is not letter+colon; no link text equals the path of a member
+     ctx_ok:  dereference off; the root has no entry exactly when writeall got the bare '.' without arcname
+              (is_bare_dot), wherever the current directory is; the first component of the names is not
+              letter+colon
    is rebuilt exactly -- kinds, contents, link texts, permission bits, FILETIMEs -- below the names
    arcpre c = arcname or path, inside an empty destination directory (Dir a b []). *)
 Theorem C02_tree_roundtrip : forall (c : wctx) (t : node) (a b : Z),
@@ -67,28 +67,24 @@ Theorem C02_tree_roundtrip : forall (c : wctx) (t : node) (a b : Z),
 Proof. exact tree_roundtrip. Qed.
 Print Assumptions C02_tree_roundtrip.
 
-(* the two forms separately: writeall('.') from inside the directory ... *)
+(* the two forms separately: writeall('.') without arcname ... *)
 Theorem C02_roundtrip_dot : forall c m ft ch a b,
-  c_deref c = false -> arcpre c = [] -> c_cwd c = Some [] ->
-  wf_tree 0 (Dir m ft ch) -> no_capture c (Dir m ft ch) ->
+  c_deref c = false -> is_bare_dot c = true ->
+  wf_tree 0 (Dir m ft ch) ->
   Forall (fun nc => drive_like (fst nc) = false) ch ->
   roundtrip c (Dir m ft ch) (Dir a b []) = Ok (Dir a b ch).
 Proof. exact roundtrip_dot. Qed.
 Print Assumptions C02_roundtrip_dot.
 
-(* ... and writeall(path[, arcname]) where the root gets an entry (also a root that is a file or a link) *)
+(* ... and writeall(path[, arcname]) where the root gets an entry (also '.' with an arcname; also a root that is
+   a file or a link) *)
 Theorem C02_roundtrip_named : forall c t a b,
-  c_deref c = false -> arcpre c <> [] -> c_cwd c = None ->
+  c_deref c = false -> arcpre c <> [] ->
   Forall wf_name (arcpre c) -> nodrive (arcpre c) ->
-  wf_tree (Z.of_nat (length (arcpre c))) t -> no_capture c t ->
+  wf_tree (Z.of_nat (length (arcpre c))) t ->
   roundtrip c t (Dir a b []) = Ok (expected (arcpre c) t a b).
 Proof. exact roundtrip_named. Qed.
 Print Assumptions C02_roundtrip_named.
-
-(* an absolute path given to writeall never captures a link *)
-Theorem C02_abs_no_capture : forall c t, c_abs c = true -> no_capture c t.
-Proof. exact abs_no_capture. Qed.
-Print Assumptions C02_abs_no_capture.
 
 (* dereference: what is archived is the tree with every link replaced by what it points to, and that tree is
    rebuilt *)
@@ -110,25 +106,27 @@ Theorem C02_items_sorted : forall t, sorted_tree t -> StronglySorted path_lt (ma
 Proof. exact items_sorted. Qed.
 Print Assumptions C02_items_sorted.
 
-(* without the side conditions the statement is false of the faithful model: witnesses, each replayed on the
-   implementation by tools/harness/c02.py *)
+(* formerly witnesses against the round trip, repaired in /repo (fix: symbolic link targets were rewritten;
+   fix: writeall() dropped the entry of the current working directory): now instances of it.
+   writeall('.'): d/l -> "a" next to a top-level a keeps its text *)
+Theorem C02_fixed_link_not_captured :
+  wf_tree 0 t_capture /\ ctx_ok ctx_dot t_capture /\
+  roundtrip ctx_dot t_capture (Dir 0 0 []) = Ok (expected [] t_capture 0 0).
+Proof. exact fixed_capture. Qed.
+
+(* writeall('.', 'x') of an empty directory: x is there with its mode and time *)
+Theorem C02_fixed_dot_with_arcname :
+  wf_tree 1 (Dir 448 7 []) /\ ctx_ok ctx_dotarc (Dir 448 7 []) /\
+  roundtrip ctx_dotarc (Dir 448 7 []) (Dir 0 0 []) = Ok (Dir 0 0 [([120], Dir 448 7 [])]).
+Proof. exact fixed_cwd. Qed.
+
+(* without the side condition on letter+colon names the statement is false of the faithful model (known finding
+   drive-letter-name); the witness is replayed on the implementation by tools/harness/c02.py *)
 Theorem C02_tree_roundtrip_refuted :
   exists c t, c_deref c = false /\ wf_tree (Z.of_nat (length (arcpre c))) t /\
               roundtrip c t (Dir 0 0 []) <> Ok (expected (arcpre c) t 0 0).
 Proof. exact tree_roundtrip_refuted. Qed.
 Print Assumptions C02_tree_roundtrip_refuted.
-
-(* writeall('.'): d/l -> "a" (its sibling) comes back as d/l -> "../a" *)
-Theorem C02_refuted_link_captured :
-  wf_tree 0 t_capture /\
-  roundtrip ctx_dot t_capture (Dir 0 0 []) =
-    Ok (Dir 0 0 [(n_a, File 420 2 [1]); (n_d, Dir 493 3 [(n_a, File 420 4 [2]); (n_l, Link [dotdot; n_a])])]).
-Proof. exact refuted_capture. Qed.
-
-(* writeall('.', 'x') from inside an empty directory: nothing is archived *)
-Theorem C02_refuted_cwd_directory :
-  wf_tree 1 (Dir 448 7 []) /\ roundtrip ctx_dotarc (Dir 448 7 []) (Dir 0 0 []) = Ok (Dir 0 0 []).
-Proof. exact refuted_cwd. Qed.
 
 (* writeall('.'): "c:foo" comes back as "foo" *)
 Theorem C02_refuted_drive_letter :
@@ -137,7 +135,7 @@ Theorem C02_refuted_drive_letter :
     Ok (Dir 0 0 [([102; 111; 111], File 420 2 [1])]).
 Proof. exact refuted_drive. Qed.
 
-(* a link text "./a" comes back as "a" *)
+(* a link text "./a" (not in normal form: outside wf_tree) comes back as "a" (known finding link-text-normalised) *)
 Theorem C02_refuted_link_text :
   roundtrip ctx_rel (Dir 493 1 [(n_a, File 420 2 [1]); (n_l, Link [dot; n_a])]) (Dir 0 0 []) =
     Ok (Dir 0 0 [([115; 114; 99], Dir 493 1 [(n_a, File 420 2 [1]); (n_l, Link [n_a])])]).
